@@ -577,6 +577,29 @@ fn run_history(ai: usize, k: u64, bi: usize, rec: &Recorder) -> u64 {
     calls + 1
 }
 
+/// Two-call histories on ONE graph object: call k of the table first (on a freshly built graph), then the whole
+/// table on the same object. Whatever the first call memoises inside the graph must serve every later call.
+fn run_history_same(ai: usize, k: u64, rec: &Recorder) -> u64 {
+    let (mut a, _) = history_graphs();
+    a.push(build_custom(US, 4, &[(0, 1, 1.0), (1, 2, 2.0), (0, 2, 1.0), (2, 3, 1.0)], "hA6: weighted triangle with a pendant node"));
+    let g = &a[ai];
+    let mut c = Counters::default();
+    let dummy = Recorder::new("C20", &[]);
+    ONLY_CALL.with(|o| o.set(Some(k)));
+    check_api_one(g, &dummy, &mut c);
+    ONLY_CALL.with(|o| o.set(None));
+    let first = LAST_CALL.with(|l| l.borrow().clone());
+    let inner = Recorder::new("C20", &[]);
+    let calls = check_api_one(g, &inner, &mut c);
+    for mut v in inner.take_all() {
+        v.case = format!("hs:{ai}:{k}|{}", v.case);
+        v.detail = format!("two-call history on one graph object: first {first} on a freshly built graph [{}], then:\n{}", g.case, v.detail);
+        v.tags.push("after_other_call_on_same_graph".into());
+        rec.record(v);
+    }
+    calls + 1
+}
+
 fn history_stage(tier: &str, rec: &Recorder, seed: u64) -> (u64, u64) {
     let (a, b) = history_graphs();
     let tot = std::sync::Mutex::new((0u64, 0u64));
@@ -622,6 +645,26 @@ fn history_stage(tier: &str, rec: &Recorder, seed: u64) -> (u64, u64) {
             }
         }
     });
+    // the same, on one graph object (first call, then the whole table on the same object)
+    let same_step = if tier == "quick" { 5 } else { 1 };
+    for ai in [2usize, 3, 5, 6] {
+        let total = on_fresh_thread_scoped(seed, || {
+            let (mut a, _) = history_graphs();
+            a.push(build_custom(US, 4, &[(0, 1, 1.0), (1, 2, 2.0), (0, 2, 1.0), (2, 3, 1.0)], "hA6: weighted triangle with a pendant node"));
+            let dummy = Recorder::new("C20", &[]);
+            let mut c = Counters::default();
+            check_api_one(&a[ai], &dummy, &mut c)
+        })
+        .unwrap_or(0);
+        let ks: Vec<u64> = (1..=total).step_by(same_step).collect();
+        par_for(ks.len(), |j| {
+            if let Ok(n) = on_fresh_thread_scoped(seed, || run_history_same(ai, ks[j], rec)) {
+                let mut t = tot.lock().unwrap();
+                t.0 += 1;
+                t.1 += n;
+            }
+        });
+    }
     let t = tot.lock().unwrap();
     (t.0, t.1)
 }
@@ -770,6 +813,16 @@ pub fn replay(case: &str, rec: &Recorder) -> bool {
                 let mut c = Counters::default();
                 check_api(&b, rec, &mut c);
             });
+        }
+        return rec.has_any();
+    }
+    if main.starts_with("hs:") {
+        let p: Vec<u64> = main.split(':').skip(1).filter_map(|x| x.parse().ok()).collect();
+        if p.len() != 2 {
+            return false;
+        }
+        for _ in 0..2 {
+            let _ = on_fresh_thread_scoped(seed, || run_history_same(p[0] as usize, p[1], rec));
         }
         return rec.has_any();
     }
